@@ -122,6 +122,9 @@ func (g *hgen) anns(f *hFld) {
 	if !g.r.chance(g.annPct) {
 		return
 	}
+	if g.side == 1 && f.T.K == thrift.STRUCT {
+		return // response side: struct members are reached through the nested level, not mapped as a whole
+	}
 	n := 1
 	if g.r.chance(55) {
 		n = 2 + g.r.intn(2)
@@ -136,8 +139,23 @@ func (g *hgen) anns(f *hFld) {
 		if f.T.K == thrift.STRUCT && g.side == 0 && g.r.chance(25) {
 			k = hkNoBodyStruct
 		}
-		if g.side == 1 && k == hkHTTPCode && !(f.T.K == thrift.I32 || f.T.K == thrift.I16 || f.T.K == thrift.I64 || f.T.K == thrift.STRING) && g.r.chance(80) {
+		if g.side == 1 && k == hkHTTPCode && (f.T.K == thrift.DOUBLE || (!(f.T.K == thrift.I32 || f.T.K == thrift.I16 || f.T.K == thrift.I64 || f.T.K == thrift.STRING) && g.r.chance(80))) {
 			k = hkHeader
+		}
+		if g.side == 1 && k == hkNoBodyStruct {
+			k = hkForm
+		}
+		if g.side == 0 && g.r.chance(92) {
+			str := f.T.K == thrift.STRING && !f.T.Binary
+			if k == hkRawURI && !str {
+				k = hkQuery
+			}
+			if k == hkRawBody && !(str || f.T.K == thrift.STRUCT) {
+				k = hkHeader
+			}
+			if k == hkNoBodyStruct && f.T.K != thrift.STRUCT {
+				k = hkPath
+			}
 		}
 		if used[k] {
 			continue
@@ -475,7 +493,7 @@ func (g *hgen) httpText(t *hTy) string {
 		switch x := r.intn(100); {
 		case x < 55:
 			return g.jsonText(t, 0)
-		case x < 90 && t.Elem.K != thrift.STRUCT:
+		case x < 96 && t.Elem.K != thrift.STRUCT:
 			n := 1 + r.intn(3)
 			var parts []string
 			for i := 0; i < n; i++ {
@@ -486,12 +504,12 @@ func (g *hgen) httpText(t *hTy) string {
 			return []string{"[1,", "{}", "x"}[r.intn(3)]
 		}
 	case thrift.MAP, thrift.STRUCT:
-		if r.chance(88) {
+		if r.chance(95) {
 			return g.jsonText(t, 0)
 		}
 		return []string{"plain", "[]", "{\"a\""}[r.intn(3)]
 	default:
-		return g.scalarText(t, r.chance(90))
+		return g.scalarText(t, r.chance(96))
 	}
 }
 
